@@ -486,6 +486,22 @@ Theorem C13_parameter_misuse_refused :
 Proof. exact params_refused. Qed.
 Print Assumptions C13_parameter_misuse_refused.
 
+(* a parameter text that does not split (an unmatched quote: the path parser
+   lets an ESCAPED one through, "[max(\')]") is refused by search_matches for
+   every keyword, whatever the data -- a YAMLPathException since the repair of
+   finding F31 (it was the bare ValueError of SearchKeywordTerms.parameters) *)
+Theorem C13_unsplittable_parameters_refused :
+  forall lit re_search node_str doc invert kw raw x,
+    keyword_parameters raw = Raise (PyCrash ValueError) ->
+    keyword_search lit re_search node_str doc invert kw raw x = Raise (YPE Generic).
+Proof. exact unsplit_params_refused. Qed.
+Print Assumptions C13_unsplittable_parameters_refused.
+
+Example C13_unsplittable_parameters_hyp :
+  parse Auto true "[max(\')]" = Ok [(Some TKeywordSearch, AKeyword false KMax "'")] /\
+  keyword_parameters "'" = Raise (PyCrash ValueError) /\ keyword_parameters "a, 'b c'" = Ok ["a"; "b c"].
+Proof. vm_compute. repeat split; reflexivity. Qed.
+
 (* ---- has_child ---- *)
 Theorem C13_has_child_hash :
   forall doc invert key i kvs x,
